@@ -22,7 +22,7 @@ from pypika_tortoise.terms import SystemTimeValue
 
 PROPERTY = "C11"
 
-SHAPES = ["plain", "aliased", "schema", "temporal", "subquery", "subquery_auto", "cte", "setop"]
+SHAPES = ["plain", "aliased", "schema", "temporal", "subquery", "subquery_auto", "cte", "setop", "setop_auto"]
 COLRX = re.compile(r"^(?P<key>[a-z0-9]+)__(?P<role>[a-z]+)\d*$")
 
 
@@ -56,6 +56,9 @@ class Src:
         elif shape == "setop":
             self.obj = Q.from_(Table("in_" + key)).select("a").union(Q.from_(Table("in2_" + key)).select("a")).as_(key)
             self.aliased = True
+        elif shape == "setop_auto":
+            self.obj = Q.from_(Table("in_" + key)).select("a").union(Q.from_(Table("in2_" + key)).select("a"))
+            self.aliased = True  # receives sqN when used as a source
         self.is_subquery = shape in ("subquery", "subquery_auto")
 
     def f(self, role):
@@ -77,6 +80,9 @@ def select_cases():
                     yield {"k": "select", "shapes": list(shapes), "combine": combine, "foreign": foreign}
     for sh in SHAPES:
         yield {"k": "correlated", "shapes": [sh]}
+    for order in ("inner_first", "outer_first"):
+        for col in ("same", "different"):
+            yield {"k": "correlated_self", "shapes": ["plain"], "order": order, "col": col}
 
 
 def dml_cases():
@@ -103,12 +109,15 @@ def expand(chunk):
 
 
 KEYS = ["s1", "s2", "s3"]
+_LAST_SRCS = []
 
 
 def build(case, Q):
     """-> (statement, expectations) ; expectations: dict column-name -> (qualified?, qualifier)"""
     qh = [Q._builder()]
     srcs = [Src(sh, KEYS[i], Q, qh) for i, sh in enumerate(case["shapes"])]
+    del _LAST_SRCS[:]
+    _LAST_SRCS.extend(srcs)
     q = qh[0]
     k = case["k"]
     exp = {}
@@ -159,6 +168,24 @@ def build(case, Q):
         exp["outer1__corr"] = (True, "outer1")
         exp["outer1__sel"] = (False, None)
         exp["outer1__whr"] = (False, None)
+        return stmt, exp
+    if k == "correlated_self":
+        # the inner source is the outer table under an alias: same table name, same column name on both sides
+        outer = Table("emp")
+        inner_t = Table("emp", alias="e2")
+        c_in = Field("e2__whr", table=inner_t)
+        c_out = Field("e2__whr" if case["col"] == "same" else "emp__corr", table=outer)
+        crit = (c_in == c_out) if case["order"] == "inner_first" else (c_out == c_in)
+        inner = Q.from_(inner_t).select(Field("e2__sel", table=inner_t)).where(crit)
+        stmt = Q.from_(outer).select(Field("emp__sel", table=outer)).where(Field("emp__whr", table=outer).isin(inner))
+        e2 = Src.__new__(Src)
+        e2.shape, e2.key, e2.obj, e2.aliased, e2.is_subquery = "aliased", "e2", inner_t, True, False
+        exp["e2__sel"] = (True, e2)
+        if case["col"] == "different":
+            exp["e2__whr"] = (True, e2)
+            exp["emp__corr"] = (True, "emp")
+        exp["emp__sel"] = (False, None)
+        exp["emp__whr"] = (False, None)
         return stmt, exp
     t = srcs[0]
     if k == "insert":
@@ -271,6 +298,19 @@ def run_case(case):
                 if qual != disp:
                     res.violate("C11|%s|%s|wrong-qualifier|%s" % (case["k"], role, shape),
                                 "column %s is qualified by %r, expected %r" % (t.value, qual, disp), case=case, sql=sql)
+        if case["k"] == "correlated_self" and case["col"] == "same":
+            quals = [toks[i - 2].value if (i >= 2 and toks[i - 1].kind == "OP" and toks[i - 1].text == "." and toks[i - 2].kind == "ID") else None
+                     for i, t in enumerate(toks) if t.kind == "ID" and t.value == "e2__whr"
+                     and not (i + 1 < len(toks) and toks[i + 1].kind == "OP" and toks[i + 1].text == ".")]
+            if sorted(map(str, quals)) != ["e2", "emp"]:
+                res.violate("C11|correlated_self|whr|unqualified|same-name", "the outer table's column in a self-correlated subquery is not "
+                            "qualified by the outer table (qualifiers found: %s)" % quals, case=case, sql=sql)
+        # distinct row sources must be exposed under distinct names
+        if case["k"] == "select" and not param:
+            names = [s_.display() for s_ in _LAST_SRCS]
+            if len(set(names)) != len(names):
+                res.violate("C11|select|duplicate-source-name|%s" % "+".join(sorted(case["shapes"])),
+                            "two row sources of the statement are exposed under the same name %s" % names, case=case, sql=sql)
         missing = set(exp) - seen
         if missing and not param:
             res.extra["columns_not_rendered"] = res.extra.get("columns_not_rendered", 0) + len(missing)
